@@ -311,7 +311,7 @@ func realize(r *common.Rand, kind string, s *sim, hist *[]ck.Op) ck.Op {
 // ---------- one script ----------
 
 type outcome struct {
-	k        int // window index the child was killed at (-1: not killed)
+	k        int // window index the child was killed at
 	j        int // model micro-steps completed
 	state    string
 	fails    []failure
@@ -321,6 +321,8 @@ type outcome struct {
 
 type failure struct{ sig, msg string }
 
+// modelScript is the script in the model runner's syntax.  Earlier crashed runs
+// become history items "crash:<j>:<op>".
 func modelScript(sc *ck.Script, sizes map[int][]int64) string {
 	var bl []string
 	for _, b := range sc.Blobs {
@@ -332,6 +334,12 @@ func modelScript(sc *ck.Script, sizes map[int][]int64) string {
 		bl = append(bl, fmt.Sprintf("%d:%d:%d", b.ID, n, m))
 	}
 	var hs []string
+	for _, seg := range sc.Pre {
+		for _, o := range seg.History {
+			hs = append(hs, o.String())
+		}
+		hs = append(hs, fmt.Sprintf("crash:%d:%s", seg.J, seg.Final.String()))
+	}
 	for _, o := range sc.History {
 		hs = append(hs, o.String())
 	}
@@ -350,32 +358,186 @@ func stepsText(st []ck.Step) string {
 	return strings.Join(xs, " ")
 }
 
-func runScript(sc *ck.Script, before, after *sim, onlyK int, allK bool) {
+func copyDir(src, dst string) {
+	err := filepath.Walk(src, func(p string, info os.FileInfo, err error) error {
+		if err != nil {
+			return err
+		}
+		rel, _ := filepath.Rel(src, p)
+		q := filepath.Join(dst, rel)
+		if info.IsDir() {
+			return os.MkdirAll(q, 0o755)
+		}
+		data, err := os.ReadFile(p)
+		if err != nil {
+			return err
+		}
+		if err := os.WriteFile(q, data, 0o644); err != nil {
+			return err
+		}
+		return os.Chmod(q, info.Mode().Perm())
+	})
+	if err != nil {
+		panic(err)
+	}
+}
+
+// prepared is a layout directory left behind by the earlier crashed runs of a
+// script, with the ground truth observed on it.
+type prepared struct {
+	dir   string // scratch directory of this script
+	base  string // the layout directory ("" = none yet: the store is created by the first process)
+	sim   *sim
+	sizes map[int][]int64
+	n     int
+}
+
+func newPrepared() *prepared {
 	dir, err := os.MkdirTemp(work, "s")
 	if err != nil {
 		panic(err)
 	}
-	defer os.RemoveAll(dir)
-	scriptPath := filepath.Join(dir, "script.json")
-	if err := os.WriteFile(scriptPath, []byte(sc.JSON()), 0o644); err != nil {
+	return &prepared{dir: dir, sim: newSim(), sizes: map[int][]int64{}}
+}
+
+func (p *prepared) close() { os.RemoveAll(p.dir) }
+
+// fresh returns a new directory holding a copy of the prepared layout.
+func (p *prepared) fresh(name string) string {
+	p.n++
+	d := filepath.Join(p.dir, fmt.Sprintf("%s%d", name, p.n))
+	if err := os.MkdirAll(d, 0o755); err != nil {
 		panic(err)
 	}
+	root := filepath.Join(d, "root")
+	if p.base != "" {
+		copyDir(p.base, root)
+	} else {
+		os.Mkdir(root, 0o755)
+	}
+	return root
+}
+
+func (p *prepared) mergeSizes(m map[int][]int64) {
+	for k, v := range m {
+		p.sizes[k] = v
+	}
+}
+
+func writeScript(dir string, blobs []ck.Blob, hist []ck.Op, final ck.Op) string {
+	sc := ck.Script{Blobs: blobs, History: hist, Final: final}
+	f, err := os.CreateTemp(dir, "script*.json")
+	if err != nil {
+		panic(err)
+	}
+	f.WriteString(sc.JSON())
+	f.Close()
+	return f.Name()
+}
+
+// observed sets the ground truth from the raw directory (after a crash the
+// abstract state is one of two; the harness reads which).
+func observed(root string, sc *ck.Script) *sim {
+	s := newSim()
+	byHex := map[string]int{}
+	for _, b := range sc.Blobs {
+		byHex[b.Hex()] = b.ID
+	}
+	names, _ := ck.BlobFiles(root)
+	for _, n := range names {
+		if id, ok := byHex[n]; ok {
+			s.blobs[id] = true
+		}
+	}
+	if idx, st := ck.ReadRawIndex(root); st == "ok" {
+		for _, m := range idx.Manifests {
+			if r, ok := m.Annotations["org.opencontainers.image.ref.name"]; ok && strings.HasPrefix(r, "t") {
+				if v, err := strconv.Atoi(r[1:]); err == nil {
+					if id, ok := byHex[strings.TrimPrefix(m.Digest, "sha256:")]; ok {
+						s.tags[v] = id
+					}
+				}
+			}
+		}
+	}
+	return s
+}
+
+// execSegment runs one earlier process on the prepared directory: history, then
+// the final operation killed at window call seg.K.  The crash itself is a case
+// (model comparison + oracle) of the script truncated at this segment.
+func execSegment(sc *ck.Script, i int, p *prepared) {
+	seg := &sc.Pre[i]
+	trunc := &ck.Script{Blobs: sc.Blobs, Pre: sc.Pre[:i], History: seg.History, Final: seg.Final}
+	before := p.sim.clone()
+	for _, o := range seg.History {
+		before.apply(o)
+	}
+	after := before.clone()
+	after.apply(seg.Final)
+	scriptPath := writeScript(p.dir, sc.Blobs, seg.History, seg.Final)
+	rec := p.fresh("prerec")
+	tr, err := ck.Run(exe, rec, scriptPath, filepath.Dir(rec), nil)
+	if err != nil || !tr.HasBegin || !tr.HasEnd {
+		panic(fmt.Sprintf("recording run of an earlier segment failed: %v (script %s)", err, sc.JSON()))
+	}
+	p.mergeSizes(ck.NewNamer(rec, sc).WriteSizes(tr.Events))
+	win := tr.Window()
+	if p.base == "" {
+		p.base = filepath.Join(p.dir, "base")
+		os.Mkdir(p.base, 0o755)
+	}
+	if len(win) == 0 {
+		panic("empty window")
+	}
+	k := seg.K % len(win)
+	ktr, err := ck.Run(exe, p.base, scriptPath, p.dir, &ck.Inject{Name: win[k].Name, Ord: win[k].Ord})
+	if err != nil || !ktr.Killed || !ktr.HasBegin || ktr.HasEnd {
+		panic(fmt.Sprintf("earlier segment was not killed inside its window: %v (script %s)", err, sc.JSON()))
+	}
+	nm := ck.NewNamer(p.base, sc)
+	done := ktr.Window()
+	seg.J = len(nm.Project(done, map[int64]string{}))
+	state := ck.ObserveDir(p.base, sc, p.sizes)
+	fails := oracle(p.base, sc, before, after)
+	id := run.NewID()
+	run.Case(id, fmt.Sprintf("K %d %s %d %s", seg.J, modelScript(trunc, p.sizes), len(done), common.Hex(trunc.JSON())), "STATE "+state)
+	for _, f := range fails {
+		run.OracleFail(id, f.sig, fmt.Sprintf("%s (earlier crash %d: %s killed before window system call %d)", f.msg, i, seg.Final.String(), len(done)),
+			map[string]any{"script": trunc, "k": len(done)})
+	}
+	run.Count("earlier-crashes")
+	p.sim = observed(p.base, sc)
+}
+
+// runMain: the last process of the script.  Record its final operation, then
+// kill it at every window system call (each time on a fresh copy of the prepared
+// directory).
+func runMain(sc *ck.Script, p *prepared, onlyK int, allK bool) {
+	before := p.sim.clone()
+	for _, o := range sc.History {
+		before.apply(o)
+	}
+	after := before.clone()
+	after.apply(sc.Final)
+	scriptPath := writeScript(p.dir, sc.Blobs, sc.History, sc.Final)
 	hexJSON := common.Hex(sc.JSON())
-	rec := filepath.Join(dir, "rec")
-	os.Mkdir(rec, 0o755)
-	tr, err := ck.Run(exe, rec, scriptPath, dir, nil)
+	rec := p.fresh("rec")
+	tr, err := ck.Run(exe, rec, scriptPath, filepath.Dir(rec), nil)
 	if err != nil || !tr.HasBegin || !tr.HasEnd {
 		panic(fmt.Sprintf("recording run failed: %v (script %s)", err, sc.JSON()))
 	}
 	nm := ck.NewNamer(rec, sc)
-	sizes := nm.WriteSizes(tr.Events)
+	p.mergeSizes(nm.WriteSizes(tr.Events))
+	sizes := p.sizes
 	enc := modelScript(sc, sizes)
 	win := tr.Window()
 	run.Count("final:" + sc.Final.Kind)
 	run.Count(fmt.Sprintf("history-len:%d", len(sc.History)))
+	run.Count(fmt.Sprintf("earlier-crashes-in-script:%d", len(sc.Pre)))
 	run.Count(fmt.Sprintf("window-syscalls:%02d", (len(win)/10)*10))
 
-	// R: results of every operation
+	// R: results of every operation of the last process
 	var results []string
 	for _, l := range strings.Split(strings.TrimSpace(tr.Stdout), "\n") {
 		f := strings.Fields(l)
@@ -395,9 +557,6 @@ func runScript(sc *ck.Script, before, after *sim, onlyK int, allK bool) {
 		run.Nontrivial("S " + sc.Final.String() + " " + stepsText(steps))
 	}
 
-	// the completed run: effects of everything that returned are present
-	finalState := ck.ObserveDir(rec, sc, sizes)
-	final := oracle(rec, sc, after, after)
 	emit := func(o outcome) {
 		id := run.NewID()
 		rp := map[string]any{"script": sc, "k": o.k}
@@ -413,8 +572,11 @@ func runScript(sc *ck.Script, before, after *sim, onlyK int, allK bool) {
 		}
 		run.Count("kills")
 	}
-	emit(outcome{k: len(win), j: len(steps), state: finalState, fails: final})
-	run.Sample(map[string]any{"final": sc.Final.String(), "history": len(sc.History), "window_syscalls": len(win), "micro_steps": stepsText(steps)})
+	// the completed run: effects of everything that returned are present
+	finalState := ck.ObserveDir(rec, sc, sizes)
+	emit(outcome{k: len(win), j: len(steps), state: finalState, fails: oracle(rec, sc, after, after)})
+	run.Sample(map[string]any{"final": sc.Final.String(), "history": len(sc.History), "earlier_crashes": len(sc.Pre),
+		"window_syscalls": len(win), "micro_steps": stepsText(steps)})
 
 	// kill points
 	var ks []int
@@ -428,6 +590,10 @@ func runScript(sc *ck.Script, before, after *sim, onlyK int, allK bool) {
 		ks = append(ks, k)
 	}
 	outs := make([]outcome, len(ks))
+	roots := make([]string, len(ks))
+	for i := range ks {
+		roots[i] = p.fresh("k")
+	}
 	var wg sync.WaitGroup
 	sem := make(chan struct{}, workers)
 	for i, k := range ks {
@@ -436,29 +602,33 @@ func runScript(sc *ck.Script, before, after *sim, onlyK int, allK bool) {
 		go func(i, k int) {
 			defer wg.Done()
 			defer func() { <-sem }()
-			outs[i] = killAt(sc, scriptPath, dir, win, k, sizes, before, after)
+			outs[i] = killAt(sc, scriptPath, roots[i], win, k, sizes, before, after)
+			os.RemoveAll(filepath.Dir(roots[i]))
 		}(i, k)
 	}
 	wg.Wait()
 	for _, o := range outs {
 		emit(o)
 		if o.j > 0 && o.j < len(steps) {
-			run.Nontrivial(fmt.Sprintf("K %s %d", sc.Final.String(), o.j))
+			run.Nontrivial(fmt.Sprintf("K %s %d pre%d", sc.Final.String(), o.j, len(sc.Pre)))
 		}
 	}
 }
 
+// runScript executes a complete script (replays, corpus).
+func runScript(sc *ck.Script, onlyK int, allK bool) {
+	p := newPrepared()
+	defer p.close()
+	for i := range sc.Pre {
+		execSegment(sc, i, p)
+	}
+	runMain(sc, p, onlyK, allK)
+}
+
 var workers = 4
 
-func killAt(sc *ck.Script, scriptPath, dir string, win []ck.Event, k int, sizes map[int][]int64, before, after *sim) outcome {
-	d, err := os.MkdirTemp(dir, "k")
-	if err != nil {
-		return outcome{err: err.Error()}
-	}
-	defer os.RemoveAll(d)
-	root := filepath.Join(d, "root")
-	os.Mkdir(root, 0o755)
-	tr, err := ck.Run(exe, root, scriptPath, d, &ck.Inject{Name: win[k].Name, Ord: win[k].Ord})
+func killAt(sc *ck.Script, scriptPath, root string, win []ck.Event, k int, sizes map[int][]int64, before, after *sim) outcome {
+	tr, err := ck.Run(exe, root, scriptPath, filepath.Dir(root), &ck.Inject{Name: win[k].Name, Ord: win[k].Ord})
 	if err != nil {
 		return outcome{err: err.Error()}
 	}
@@ -561,18 +731,36 @@ func oracle(root string, sc *ck.Script, before, after *sim) []failure {
 
 // ---------- main ----------
 
-func runGenerated(r *common.Rand, histLen int, kind string, big bool, allK bool) {
-	sc := &ck.Script{Blobs: universe(r, big)}
-	s := newSim()
-	for i := 0; i < histLen; i++ {
+func genHistory(r *common.Rand, sc *ck.Script, s *sim, n int) []ck.Op {
+	var h []ck.Op
+	for i := 0; i < n; i++ {
 		o := randomOp(r, s, sc)
-		sc.History = append(sc.History, o)
+		h = append(h, o)
 		s.apply(o)
 	}
+	return h
+}
+
+func runGenerated(r *common.Rand, histLen int, kind string, big bool, allK bool, crashes int) {
+	sc := &ck.Script{Blobs: universe(r, big)}
+	p := newPrepared()
+	defer p.close()
+	for i := 0; i < crashes; i++ {
+		s := p.sim.clone()
+		seg := ck.Segment{History: genHistory(r, sc, s, r.Intn(4))}
+		kind := common.Pick(r, finalKinds)
+		if kind == "untag-missing" {
+			kind = "untag" // an Untag of an unknown reference issues no system call: nothing to be killed in
+		}
+		seg.Final = realize(r, kind, s, &seg.History)
+		seg.K = r.Intn(1000)
+		sc.Pre = append(sc.Pre, seg)
+		execSegment(sc, i, p)
+	}
+	s := p.sim.clone()
+	sc.History = genHistory(r, sc, s, histLen)
 	sc.Final = realize(r, kind, s, &sc.History)
-	after := s.clone()
-	after.apply(sc.Final)
-	runScript(sc, s, after, -1, allK)
+	runMain(sc, p, -1, allK)
 }
 
 func replay(path string) {
@@ -585,19 +773,13 @@ func replay(path string) {
 		if err != nil {
 			panic(err)
 		}
-		s := newSim()
-		for _, o := range sc.History {
-			s.apply(o)
-		}
-		after := s.clone()
-		after.apply(sc.Final)
 		k := -1
 		if v, ok := c["k"]; ok {
 			if n, err := strconv.Atoi(v); err == nil {
 				k = n
 			}
 		}
-		runScript(sc, s, after, k, true)
+		runScript(sc, k, true)
 	}
 }
 
@@ -607,7 +789,7 @@ func main() {
 	}
 	run = common.Start("C10")
 	defer run.Finish()
-	run.Rule = "a case = (script, kill point): the child is killed by strace at the entry of one system call of the final operation; distinct = distinct (final operation, number of completed micro-steps); non-trivial = killed strictly inside the operation's mutating steps (plus every non-empty recorded script)"
+	run.Rule = "a case = (script, kill point): the child is killed by strace at the entry of one system call of the final operation; distinct = distinct (final operation, number of completed micro-steps, number of earlier crashes); non-trivial = killed strictly inside the operation's mutating steps (plus every non-empty recorded script)"
 	var err error
 	exe, err = os.Executable()
 	if err != nil {
@@ -626,7 +808,7 @@ func main() {
 		return
 	}
 	r := run.Rand
-	nHist := run.Scale(6, 40)
+	nHist := run.Scale(6, 90)
 	perHist := len(finalKinds)
 	ki := int(run.Seed) * 5
 	for h := 0; h < nHist; h++ {
@@ -635,7 +817,12 @@ func main() {
 			ki++
 			histLen := r.Intn(run.Scale(7, 14))
 			big := run.Thorough() && h%5 == 4 && (kind == "push-raw-multi" || kind == "pushbad")
-			runGenerated(r, histLen, kind, big, run.Thorough())
+			crashes := 0
+			if h%3 == 2 {
+				crashes = 1 + r.Intn(2) // the directory was left behind by one or two killed processes
+				histLen = r.Intn(4)
+			}
+			runGenerated(r, histLen, kind, big, run.Thorough(), crashes)
 		}
 	}
 }
